@@ -398,11 +398,18 @@ Print Assumptions C11_pstmt_def.
    kPollTimeMs, which is positive (10 s on the pinned tree), and both back-ends hand their parameter
    `timeoutMs` to ::epoll_wait / ::poll untouched - plus (2) the kernel contract that a call with a positive
    time-out returns only for readiness, a signal or expiry.  A zero time-out (kPollTimeMs = 0, poll(0, ..),
-   ::epoll_wait(.., 0)) IS the loop spinning; it breaks this theorem and the idle scenarios of bin/check C11. *)
+   ::epoll_wait(.., 0)) IS the loop spinning; it breaks this theorem and the idle scenarios of bin/check C11.
+   REVIEW_F F-3 (c): the OTHER arguments of the system call are regenerated too ([.._syscall_args_ok], canonical
+   text in Gen_C11.v): ::epoll_wait(epollfd_, &*events_.begin(), static_cast<int>(events_.size()), timeoutMs) and
+   ::poll(&*pollfds_.begin(), pollfds_.size(), timeoutMs) - the poller's own descriptor, its own array, and the
+   WHOLE array as the count.  A count of 0 makes epoll_wait fail with EINVAL at once (a spin that logs every pass)
+   and makes poll see no event; with these arguments [k_ready] of the model is what the kernel reports for the
+   poller's registered set (what that set is: C09). *)
 Theorem C11_poll_timeout_positive :
   eventloop_poll_timeout_is_kPollTimeMs = true /\ 0 < eventloop_kPollTimeMs /\
-  epoll_poll_passes_timeout = true /\ ppoll_poll_passes_timeout = true.
-Proof. exact (conj eq_refl (conj eq_refl (conj eq_refl eq_refl))). Qed.
+  epoll_poll_passes_timeout = true /\ ppoll_poll_passes_timeout = true /\
+  epoll_poll_syscall_args_ok = true /\ ppoll_poll_syscall_args_ok = true.
+Proof. exact (conj eq_refl (conj eq_refl (conj eq_refl (conj eq_refl (conj eq_refl eq_refl))))). Qed.
 Print Assumptions C11_poll_timeout_positive.
 
 (* EventLoop::loop: the condition of its while loop is `!quit_`, and its body and doPendingFunctors
@@ -594,8 +601,11 @@ Proof. split; [reflexivity|]. vm_compute. eexists _, _, _. repeat split. Qed.
    __errno_location() on that path (a `::close(-1)` before the copy, a helper that logs), not only for a log
    statement.  They are intra-procedural; the two callees between ::accept4 and Acceptor::handleRead are covered
    one level each: sockets::accept copies errno right after ::accept4, each of its non-fatal switch groups is
-   exactly `errno = savedErrno; break;` and nothing but `return connfd;` follows (its own LOG_SYSERR sits in
-   between); Socket::accept makes no call on the failure path.  Anything deeper (what the kernel wrappers of libc
+   exactly `errno = savedErrno; break;`, these are the only stores to errno in the function, and EVERY statement
+   that follows the switch - inside `if (connfd < 0)` and after it, up to the final `return` - is free of calls,
+   constructions and stores to errno (REVIEW_F F-3 a; its own LOG_SYSERR sits between the copy and the switch);
+   Socket::accept makes no call and no store to errno on the failure path.  In all facts a STORE to errno
+   (`errno = 0;`) on the path counts like a call (REVIEW_F F-3 b).  Anything deeper (what the kernel wrappers of libc
    do, inlined helpers in other translation units) is residue. *)
 Theorem C11_errno_captured_before_log :
   Acceptor_handleRead_tests_saved_errno = true /\ sendInLoop_tests_saved_errno = true /\
